@@ -801,7 +801,113 @@ class C03(StreamProp):
         return w != "R" and any(ch in w for ch in "[{S")
 
 
-REGISTRY = {"C05": C05(), "C03": C03(), "C02": C02(), "C20": C20(), "C09": C09(), "C10": C10(), "C14": C14(), "C12": C12()}
+# ------------------------------------------------------------------------------------------
+# C07
+
+class C07(Prop):
+    rule = ("fixed boundary literals, zero-padded / huge-exponent literals of moderate value, every digit count 1..800 (every 7th in quick) as "
+            "integer, fraction and mixed literal, every power-of-ten exponent -400..400 (every 3rd in quick) with 1-, 4- and 17-digit "
+            "mantissas, exact 800-digit decimal expansions and 17/18/21-digit roundings of random doubles (halfway / near-halfway), 19/20-digit "
+            "integer boundaries, fractions of length 0..40 after 1..20 integer digits (SIMD alignment of the 16-digit reader), random grammar "
+            "strings; non-trivial = the literal is grammatical and not a one-digit integer")
+    trusted = ["the float back end (Clinger fast path, Eisel-Lemire, big-decimal fallback, biased_fp_to_float) is NOT proved: its output is "
+               "compared bit-for-bit with the exact specification Spec.roundF64 (big-integer round-half-even) on every case",
+               "Spec.roundF64 itself is cross-checked against Rust's str::parse::<f64> on every case (spec adequacy)"]
+    assumptions = ["`-0` with an integer target is rejected, as serde_json does (C04 governs); literals shorter than 10^8 bytes"]
+    WIDTHS = ["i8", "u8", "i16", "u16", "i32", "u32", "i64", "u64", "i128", "u128"]
+
+    def explore(self, ctx, res):
+        name = "c07"
+        cases_path = generate(ctx, name)
+        impl, model, crashed, err = run_stream(ctx, name, cases_path)
+        with open(cases_path) as f:
+            cases = f.read().splitlines()
+        if crashed or len(impl) != len(cases):
+            idx = min(len(impl), len(cases) - 1)
+            res.oracle_failures.append(dict(key="c07:process-abort", case=cases[idx], detail=f"harness died after {len(impl)} cases: {err[-300:]}"))
+        n = min(len(impl), len(cases))
+        for i in range(n):
+            res.evaluations += 1
+            case = cases[i]
+            I = ctx["parse_fields"](impl[i])
+            M = ctx["parse_fields"](model[i]) if model and i < len(model) else {}
+            t = unhex(case.split(" ")[1])
+            if len(res.samples) < 6 and i % max(1, n // 6) == 0:
+                res.samples.append({"case": t[:80].decode("latin1"), "impl": impl[i][:300], "model": (model[i][:300] if model and i < len(model) else None)})
+            if "spec.gram" not in M:
+                if model is not None:
+                    res.model_disagreements.append(dict(key="c07:model-output-missing", case=case, detail=str(model[i] if i < len(model) else None)[:100]))
+                continue
+            gram = M["spec.gram"] == "A"
+            if gram and len(t) > 1:
+                res.nontrivial(case)
+            res.distribution["grammatical=" + str(gram)] += 1
+            short = t[:60].decode("latin1")
+
+            def fail(field, cls, detail):
+                res.oracle_failures.append(dict(key=f"C07|{field}|{cls}", case=case, detail=f"{short}: {detail}"))
+
+            for fld in I:
+                if I[fld] == "PANIC":
+                    fail(fld, "panic", "panicked")
+            if not gram:
+                for fld in ["f64", "f32", "dom", "sjv"] + self.WIDTHS:
+                    if fld in I and I[fld] not in ("R", "PANIC"):
+                        fail(fld, "accepts-ungrammatical-literal", I[fld])
+                continue
+            # classification and value of the any-typed targets
+            sd = M["spec.dom"]
+            for fld in ("dom", "sjv"):
+                if fld in I and I[fld] != sd and I[fld] != "PANIC":
+                    exp_digits = re.search(rb"[eE][+-]?0*([0-9]+)$", t)
+                    if exp_digits and len(exp_digits.group(1)) >= 4 and sd != I[fld]:
+                        cls = "huge-exponent-literal-misread"
+                    elif sd.startswith("F8000000000000000") and I[fld] == "F0000000000000000":
+                        cls = "sign-of-zero-lost"
+                    elif sd[0] != I[fld][0]:
+                        cls = "wrong-classification"
+                    else:
+                        cls = "wrong-value"
+                    fail(fld, cls, f"impl {I[fld]} spec {sd}")
+            sf = M["spec.f64"]
+            if "f64" in I and I["f64"] != sf and I["f64"] != "PANIC":
+                exp_digits = re.search(rb"[eE][+-]?0*([0-9]+)$", t)
+                cls = "huge-exponent-literal-misread" if (exp_digits and len(exp_digits.group(1)) >= 4) else ("sign-of-zero-lost" if sf == "8000000000000000" and I["f64"] == "0000000000000000" else "not-nearest-f64")
+                fail("f64", cls, f"impl {I['f64']} spec {sf}")
+            # f32 = the f64 result narrowed once
+            if "f32" in I and I["f32"] != "PANIC":
+                import struct
+                if sf == "R":
+                    exp32 = "R"
+                else:
+                    x = struct.unpack(">d", bytes.fromhex(sf))[0]
+                    try:
+                        exp32 = struct.pack(">f", x).hex()
+                    except OverflowError:
+                        exp32 = "7f800000" if x > 0 else "ff800000"
+                if I["f32"] != exp32 and not (exp32 in ("7f800000", "ff800000")):
+                    fail("f32", "not-f64-narrowed-once", f"impl {I['f32']} expected {exp32}")
+            for w in self.WIDTHS:
+                if t == b"-0":
+                    continue    # `-0` with an integer target: serde_json's behaviour governs (C04)
+                if w in I and I[w] != M.get("spec." + w) and I[w] != "PANIC":
+                    cls = "accepts-out-of-range-or-non-integer" if M.get("spec." + w) == "R" else ("rejects-in-range-integer" if I[w] == "R" else "wrong-integer")
+                    fail(w, cls, f"impl {I[w]} spec {M.get('spec.' + w)}")
+            # correspondence: digit machine model
+            md = M.get("m.dom")
+            if md and md != "F?" and "dom" in I and I["dom"] != md:
+                res.model_disagreements.append(dict(key="c07:digit-machine", case=case, detail=f"{short}: impl {I['dom']} model {md}"))
+            if M.get("contract") == "BAD":
+                res.model_disagreements.append(dict(key="c07:float-contract(sig,e10,trunc)-vs-exact-value", case=case, detail=short))
+            if M.get("m.stop") != "A":
+                res.model_disagreements.append(dict(key="c07:digit-machine-end-index", case=case, detail=short))
+            # adequacy of the specification against std and serde_json
+            if I.get("std") not in (None, sf) and not (sf == "R" and I.get("std", "").startswith(("7ff0", "fff0"))):
+                if len(res.adequacy) < 30:
+                    res.adequacy.append(f"{short}: std {I.get('std')} spec {sf}")
+
+
+REGISTRY = {"C05": C05(), "C07": C07(), "C03": C03(), "C02": C02(), "C20": C20(), "C09": C09(), "C10": C10(), "C14": C14(), "C12": C12()}
 for _k, _v in REGISTRY.items():
     _v.pid = _k
 
